@@ -6,6 +6,7 @@ import (
 	"bufio"
 	"crypto/sha256"
 	"encoding/hex"
+	"flag"
 	"fmt"
 	"os"
 	"sort"
@@ -37,7 +38,7 @@ func (r *Rng) Int63n(n int64) int64 {
 	}
 	return int64(r.U64() % uint64(n))
 }
-func (r *Rng) Bool() bool       { return r.U64()&1 == 1 }
+func (r *Rng) Bool() bool        { return r.U64()&1 == 1 }
 func (r *Rng) Chance(p int) bool { return r.Intn(100) < p } // p percent
 func (r *Rng) Bytes(n int) []byte {
 	b := make([]byte, n)
@@ -49,7 +50,7 @@ func (r *Rng) Bytes(n int) []byte {
 	}
 	return b
 }
-func (r *Rng) Fork() *Rng { return NewRng(r.U64()) }
+func (r *Rng) Fork() *Rng          { return NewRng(r.U64()) }
 func Pick[T any](r *Rng, xs []T) T { return xs[r.Intn(len(xs))] }
 
 // Ctx is handed to every engine.
@@ -87,7 +88,9 @@ func (c *Ctx) line(parts ...string) {
 }
 
 // Want reports whether the case id should be run (replay filter).
-func (c *Ctx) Want(id string) bool { return c.Only == "" || c.Only == id || strings.HasPrefix(id, c.Only+"/") }
+func (c *Ctx) Want(id string) bool {
+	return c.Only == "" || c.Only == id || strings.HasPrefix(id, c.Only+"/")
+}
 
 // Case emits a model input line: the Lean driver answers with `model <id> <result>`.
 func (c *Ctx) Case(id, engineOp string, args ...string) {
@@ -185,30 +188,36 @@ func (c *Ctx) finish() {
 
 type Engine func(c *Ctx)
 
-var engines = map[string]Engine{}
-
-func Register(name string, e Engine) { engines[name] = e }
-
-func Names() []string {
-	n := make([]string, 0, len(engines))
-	for k := range engines {
-		n = append(n, k)
+// Main is the whole main() of an engine binary (cmd/vh-<engine>): it parses
+//
+//	--seed N --tier quick|thorough --only <case id> --scratch DIR  k=v ...
+//
+// runs the engine and writes the line protocol to stdout.
+func Main(name string, e Engine) {
+	seed := flag.Uint64("seed", 1, "PRNG seed")
+	tier := flag.String("tier", "quick", "quick|thorough")
+	only := flag.String("only", "", "run only this case id")
+	scratch := flag.String("scratch", "", "scratch directory")
+	flag.Parse()
+	args := map[string]string{}
+	for _, a := range flag.Args() {
+		if k, v, ok := strings.Cut(a, "="); ok {
+			args[k] = v
+		}
 	}
-	sort.Strings(n)
-	return n
-}
-
-// Run executes one engine, writing the protocol to stdout.
-func Run(name string, seed uint64, tier, only, scratch string, args map[string]string) error {
-	e, ok := engines[name]
-	if !ok {
-		return fmt.Errorf("unknown engine %q (have %v)", name, Names())
+	if *scratch == "" {
+		d, err := os.MkdirTemp("", "vh-"+name)
+		if err != nil {
+			panic(err)
+		}
+		defer os.RemoveAll(d)
+		*scratch = d
 	}
-	c := &Ctx{Seed: seed, Tier: tier, Rng: NewRng(seed), Only: only, Scratch: scratch, Args: args,
+	os.Setenv("TMPDIR", *scratch)
+	c := &Ctx{Seed: *seed, Tier: *tier, Rng: NewRng(*seed), Only: *only, Scratch: *scratch, Args: args,
 		w: bufio.NewWriterSize(os.Stdout, 1<<20), stats: map[string]int{}, distinct: map[string]bool{}}
 	e(c)
 	c.finish()
-	return nil
 }
 
 func Hex(b []byte) string {
